@@ -80,3 +80,12 @@ CLAIMED["C03"] = (
     "choices the real one never makes) and read by the real decoder, comparing target address, payload and per-unit sender limits; the real encoders' output is also validated as unit traces "
     "against the Wire grammar (order of units, key class, counters, limits).",
     TB + "; reference codec = my offline reading of SIP004/007/022/023, v2ray VMess AEAD, Trojan", "5.3")
+TBE = TB + "; Engine B (lib/e2e.py): real client/server processes, scripted applications/targets in one asyncio loop; loopback only"
+CLAIMED["C01"] = (
+    "model_checking", "TLA+ RelayAbs (abstract flow) + TcpRelay (kernel pipes, pumps, relays, grace timer, link kinds; TLC refinement + liveness, deviations), scripts exported by TLC executed on real client/server processes, every recorded flow validated by TLC against TraceRelay",
+    "TLC checks that the code-shaped TcpRelay design (Linux TCP reset semantics, QUIC stream shutdown, TLS noise, Stream::forward pumps, select + grace in both relays) refines the abstract per-flow "
+    "specification RelayAbs for tcp, tls and quic links and for failing dials, with PromptEnd/Released as liveness, and that each named deviation (try_join teardown, QUIC shutdown without waiting, "
+    "join without timer, sink never closed) violates it; TLC enumerates every environment script up to 5 steps (who writes which size class, where everything must have arrived, who closes first and "
+    "how); sampled scripts (size classes concretised around each protocol's chunk limits) and randomised scripts (1 B .. MiB, pauses, three local handshake kinds, three close kinds, concurrent) are "
+    "executed against the real binaries on a spread of README configurations (all 50 in the thorough tier) and each flow's observations (position-checked spans, dial, ends) are validated by TLC.",
+    TBE, "5.1")
